@@ -54,7 +54,7 @@ DEVIATIONS: t.Dict[str, t.List[t.Any]] = {
     "op": ["protect"], "hash": ["SHA1", "SHA384", "SHA512"], "kind": ["DH", "ECDH_P256", "ECDH_P384"], "pos": [(0, 0), (31, 31), (0, 31), (31, 0), (15, 31)],
     "now": [(0, 0), (31, 31), (0, 31), (3, 31)], "nsub": [1, 15], "namelen": [0, 1, 8], "named": [False], "sec": ["ntlm"], "sig": [28, 76],
     "dc.l2_at_31": [False], "dc.cover": ["later", "l1end"], "dc.reply_alloc_hint": ["unpadded", "zero", "16", "max"], "dc.reply_pad_extra": [1], "dc.reply_pad_fill": [0xE7],
-    "dc.reply_reserved": [0xFF], "dc.header_sign": [False], "dc.isd_port": [1, 65535], "dc.server_legs": [2],
+    "dc.reply_reserved": [0xFF], "dc.header_sign": [False], "dc.isd_port": [1, 65535, 5000, 99, 135 * 0 + 1025], "dc.server_legs": [2],
     "dc.env_flags": ["alt"],  # the other spelling of the envelope flags: 0 instead of 2 (seed keys), 3 instead of 1 (public key)
     "dc.name_style": ["unicode"],  # domain / forest names with non-ASCII and non-BMP characters
     "dc.forest": ["shorter", "longer"],  # a child domain / second tree: the forest name differs from the domain name (also in length)
